@@ -103,13 +103,75 @@ type St9 struct {
 	E []any  `json:"e"`
 }
 
+// three and four levels of embedding: index paths of promoted fields grow past small capacities
+type Lv4 struct {
+	Lat float64 `json:"lat"`
+	Lon float64 `json:"lon"`
+	Alt float64 `json:"alt,omitempty"`
+}
+type Lv3 struct {
+	Lv4
+	Tag3 string `json:"tag3"`
+}
+type Lv2 struct {
+	Lv3
+	N2 int `json:"n2"`
+}
+type Lv1 struct {
+	*Lv2
+	N1 int `json:"n1"`
+}
+type St10 struct {
+	Lv1
+	Name string `json:"name"`
+}
+type St11 struct {
+	Lv2
+	Lv4x Lv4 `json:"lv4"`
+	Lat  int `json:"Lat"` // differs from the promoted "lat" by case only
+}
+
+// names the case-folding comparers treat specially: '_' (vs DEL), k/s (Kelvin sign, long s), digits
+type St12 struct {
+	CreatedAt string `json:"created_at"`
+	AB        int    `json:"a_b"`
+	Kind      string `json:"kind"`
+	Sk        int    `json:"sk8"`
+	At        bool   `json:"@x"`
+	Plain     int    `json:"plain"`
+	Under     int    `json:"_"`
+}
+
+// omitempty on every kind, arrays included ([2]int{0,0} is not empty, [0]int is)
+type St13 struct {
+	Z   [2]int            `json:"z,omitempty"`
+	ZS  [1]string         `json:"zs,omitempty"`
+	E   [0]int            `json:"e,omitempty"`
+	B   bool              `json:"b,omitempty"`
+	F   float64           `json:"f,omitempty"`
+	U   uint8             `json:"u,omitempty"`
+	S   string            `json:"s,omitempty"`
+	P   *int              `json:"p,omitempty"`
+	SL  []int             `json:"sl,omitempty"`
+	M   map[string]int    `json:"m,omitempty"`
+	I   any               `json:"i,omitempty"`
+	ST  In1               `json:"st,omitempty"`
+	AP  [2]*int           `json:"ap,omitempty"`
+	AS  [1]In1            `json:"as,omitempty"`
+	BS  []byte            `json:"bs,omitempty"`
+	MI  map[int][2]bool   `json:"mi,omitempty"`
+	FS  float32           `json:"fs,omitempty,string"`
+	Neg float64           `json:"neg,omitempty"`
+}
+
 var staticTypes = []reflect.Type{
 	reflect.TypeOf(St1{}), reflect.TypeOf(St2{}), reflect.TypeOf(St3{}), reflect.TypeOf(St4{}), reflect.TypeOf(St5{}),
 	reflect.TypeOf(St6{}), reflect.TypeOf(St7{}), reflect.TypeOf(Node{}), reflect.TypeOf(St8{}), reflect.TypeOf(St9{}),
 	reflect.TypeOf([]St1{}), reflect.TypeOf(map[string]Node{}), reflect.TypeOf([2]St5{}),
+	reflect.TypeOf(St10{}), reflect.TypeOf(St11{}), reflect.TypeOf(St12{}), reflect.TypeOf(St13{}), reflect.TypeOf([]St13{}), reflect.TypeOf(map[string]*St10{}),
 }
 
-var embedTypes = []reflect.Type{reflect.TypeOf(In1{}), reflect.TypeOf(In2{}), reflect.TypeOf(In3{}), reflect.TypeOf(&In1{})}
+var embedTypes = []reflect.Type{reflect.TypeOf(In1{}), reflect.TypeOf(In2{}), reflect.TypeOf(In3{}), reflect.TypeOf(&In1{}), reflect.TypeOf(Lv2{}), reflect.TypeOf(Lv1{}), reflect.TypeOf(&Lv3{})}
 
 // StaticType selects one of the hand-written types.
 func StaticType(seed uint64) reflect.Type { return staticTypes[seed%uint64(len(staticTypes))] }
@@ -236,6 +298,30 @@ var (
 )
 
 func caseVariant(r *gen.R, s string) string {
+	if s != "" && r.P(400) {
+		// spellings the case-insensitive comparers must (or must not) accept: bit 0x20 flipped in one
+		// byte ('_' vs DEL, '@' vs '`', digits vs control bytes), Kelvin sign for k, long s for s
+		b := []byte(s)
+		i := r.Intn(len(b))
+		if r.Bool() {
+			// prefer a byte that is not a letter, if there is one
+			for j := range b {
+				if u := b[j] &^ 0x20; (u < 'A' || u > 'Z') && b[j] < 0x80 {
+					i = j
+					break
+				}
+			}
+		}
+		switch {
+		case (b[i] == 'k' || b[i] == 'K') && r.Bool():
+			return string(b[:i]) + "\u212a" + string(b[i+1:])
+		case (b[i] == 's' || b[i] == 'S') && r.Bool():
+			return string(b[:i]) + "\u017f" + string(b[i+1:])
+		case b[i] < 0x80:
+			b[i] ^= 0x20
+			return string(b)
+		}
+	}
 	switch r.Intn(3) {
 	case 0:
 		return strings.ToUpper(s)
@@ -328,7 +414,7 @@ func GenFor(g *gen.G, t reflect.Type, depth int) string {
 				continue
 			}
 			seen[k] = true
-			parts = append(parts, strconv.Quote(k)+":"+GenFor(g, t.Elem(), depth-1))
+			parts = append(parts, jsonQuote(k)+":"+GenFor(g, t.Elem(), depth-1))
 		}
 		return "{" + strings.Join(parts, ",") + "}"
 	case reflect.Struct:
@@ -339,7 +425,7 @@ func GenFor(g *gen.G, t reflect.Type, depth int) string {
 				continue
 			}
 			name := f.name
-			if r.P(100) {
+			if r.P(150) {
 				name = caseVariant(r, name)
 			}
 			v := "null"
@@ -356,9 +442,9 @@ func GenFor(g *gen.G, t reflect.Type, depth int) string {
 					}
 				}
 			}
-			parts = append(parts, strconv.Quote(name)+":"+v)
+			parts = append(parts, jsonQuote(name)+":"+v)
 			if r.P(30) { // duplicate member: the last one wins
-				parts = append(parts, strconv.Quote(name)+":"+GenFor(g, f.typ, depth-1))
+				parts = append(parts, jsonQuote(name)+":"+GenFor(g, f.typ, depth-1))
 			}
 		}
 		if r.P(150) {
@@ -375,6 +461,26 @@ func GenFor(g *gen.G, t reflect.Type, depth int) string {
 
 var stringLitsLocal = []string{
 	`""`, `"a"`, `"foo"`, `"<script>"`, `"a&b"`, `"<"`, "\" \"", `"\n"`, `"\\"`, `"\""`, `"😀"`, `"\ud800"`, `"é"`, `"\b\f"`, `"12"`, `"-3.5"`, `"true"`, `"null"`, `"\"7\""`, `"x\u0000y"`,
+}
+
+// jsonQuote writes a JSON string literal (strconv.Quote would use Go escapes such as \x7f).
+func jsonQuote(k string) string {
+	var sb strings.Builder
+	sb.WriteByte('"')
+	for _, r := range k {
+		switch {
+		case r == '"':
+			sb.WriteString(`\"`)
+		case r == '\\':
+			sb.WriteString(`\\`)
+		case r < 0x20:
+			fmt.Fprintf(&sb, `\u%04x`, r)
+		default:
+			sb.WriteRune(r)
+		}
+	}
+	sb.WriteByte('"')
+	return sb.String()
 }
 
 func isTypedTarget(kind int) bool {
